@@ -4,7 +4,7 @@ tag) with the registered quick checks (default C14 C03 C20) against a scratch wo
 from gaps of the checks. Writes notes/mutretest_<tag>.jsonl."""
 import json, os, re, subprocess, sys, threading, queue
 tag = sys.argv[1]
-checks = sys.argv[2:] or ["C14", "C03", "C20"]
+checks = sys.argv[2:] or ["C14", "C09", "C03", "C20"]
 SKIP = [r"checkHasComponent", r"earlyOut", r"len\(rel\) >= 0", r"^break$", r"^continue$", r"_debug_gen"]
 recs = [json.loads(l) for l in open("/verif/notes/mutscan_results.jsonl")]
 recs = [r for r in recs if r.get("tag") == tag and r.get("status") == "SURVIVED"]
